@@ -10,6 +10,7 @@ import (
 	"runtime"
 	"strings"
 	"sync"
+	"sync/atomic"
 	"time"
 )
 
@@ -122,16 +123,25 @@ func runConc(env *Env) error {
 		results := make([][]stepObs, nclients)
 		closedBy := make([]bool, nclients)
 		var wg sync.WaitGroup
+		var stuck atomic.Bool
 		for k := 0; k < nclients; k++ {
 			wg.Add(1)
 			go func(k int) {
 				defer wg.Done()
 				c := newScriptConn(&net.TCPAddr{IP: net.IPv4(127, 0, 0, 1), Port: 50000 + k})
+				c.Wait = 20 * time.Second
 				ls.Connect(c)
 				c.Feed(nil)
-				for _, q := range reqsOf[k] {
+				for qi, q := range reqsOf[k] {
 					out, closed := c.Feed(q.Wire())
 					results[k] = append(results[k], stepObs{out: out, closed: closed})
+					if c.Stuck {
+						stuck.Store(true)
+						env.oracleMu.Lock()
+						env.OracleFail(fmt.Sprintf("conc-%d-%d", i, k), fmt.Sprintf("[C12-hang] client %d of %d: request %d (%s) was neither answered to its end nor was the connection closed within 20 s while the other clients were active", k, nclients, qi, q.String()))
+						env.oracleMu.Unlock()
+						break
+					}
 					if closed {
 						closedBy[k] = true
 						break
